@@ -19,7 +19,7 @@ import tempfile
 
 from . import common as cm
 
-REQ = ["Base.StrX", "Sys.DBPath", "Sys.DBCompose", "Sys.DBCache", "Sys.Wire"]
+REQ = ["Base.StrX", "Sys.DBPath", "Sys.DBCompose", "Sys.DBCache", "Sys.DBWire"]
 ENVVARS = ("PYFLYBY_PATH", "PYFLYBY_KNOWN_IMPORTS_PATH", "PYFLYBY_MANDATORY_IMPORTS_PATH")
 
 # ---------------------------------------------------------------------------------------------
